@@ -1,4 +1,4 @@
-"""C12's additions to ref/frames.py: TCP option encoding, an ICMP error body, and a frame validator.
+"""C12's additions to ref/frames.py: TCP option encoding, a frame validator and a difference namer.
 
 Imports nothing from pox.  The validator answers "are the lengths and checksums of this frame valid",
 for frames of the kinds the C12 generator builds (Ethernet II / 802.1Q / 802.3, ARP, IPv4 with
@@ -64,11 +64,6 @@ def tcp_option_kinds(raw):
     out.append((i, k, raw[i + 1]))
     i += raw[i + 1]
   return out
-
-
-def icmp_error_body(inner_ip_header_and_8):
-  """Body of a destination-unreachable / time-exceeded message: the offending datagram's header + 8 bytes."""
-  return bytes(inner_ip_header_and_8)
 
 
 # --------------------------------------------------------------------------- validator
